@@ -27,10 +27,17 @@ def main(tier, seed):
             else:
                 cfg = dict(max_paths=600, answer_choice=True)
             jobs.append(("props.flow", "run_scenario", (n, dict(cfg, policy=pol, k=0, oracles=("c04",), seed=seed), "C04")))
+    # "the result does not depend on thread scheduling": two client threads complete two different open acts of one process; the second call runs at
+    # ONE lock operation of the first (every one of them) or after it; the same reference interpreter and the hierarchy oracle judge the outcome
+    for n in (("two_if", "par_block") if tier == "quick" else ("two_if", "par_block", "two_if_else", "nested", "catch_nested_par")):
+        # the reference interpreter covers steps / branches / plain acts; block and generator skeletons are judged by the hierarchy oracle only
+        orc = ("c03",) if n in ("par_block", "catch_nested_par") else ("c03", "c04")
+        jobs.append(("props.race", "run_pair_race", (n, dict(oracles=orc, keep=True, max_paths=400 if tier == "quick" else 3000, seed=seed), "C04")))
     c.run_jobs(jobs)
     return c.finish(
         rule="one path = generated workflow (branch kinds if/else/needs in every declaration order, conditional steps and acts, nesting) x feasible valuation class of the "
              "comparison conditions over the integer inputs x, y (decided by z3) x schedule; the final task list and the state-write order are compared with a reference interpreter",
-        assumptions=ASSUME + ["a step whose branches combine an else branch with a needs branch is outside the grammar (the property does not say which wins)",
+        assumptions=ASSUME + ["thread scheduling: client-client races only (two threads, one pre-emption at a lock operation, see C05); races between a client action and a scheduler job "
+                             "running on a worker thread are outside the model (one job is atomic)", "a step whose branches combine an else branch with a needs branch is outside the grammar (the property does not say which wins)",
                              "number of OS worker threads is not modelled (queue service order is)"],
         bounds=dict(scenarios=len(ns), branches="2..3 per step", nesting=2, inputs="x, y in -3..8", backward_next="not included"))
